@@ -307,7 +307,7 @@ pub fn from_predicate(ids: &[DomainId], p: Predicate) -> Option<Pred> {
         .map(|var| Pred::new(var, kind, val))
 }
 
-pub fn new_var(solver: &mut Solver, decl: &VarDecl, name: Option<String>) -> (DomainId, Option<Literal>) {
+pub fn new_var(solver: &mut Solver, decl: &VarDecl, name: Option<String>, earlier: &[DomainId]) -> (DomainId, Option<Literal>) {
     match decl.kind {
         VarKind::Interval => {
             let id = match name {
@@ -324,9 +324,11 @@ pub fn new_var(solver: &mut Solver, decl: &VarDecl, name: Option<String>) -> (Do
             (id, None)
         }
         VarKind::Lit => {
-            let l = match name {
-                Some(n) => solver.new_named_literal(n),
-                None => solver.new_literal(),
+            let l = match (decl.def, name) {
+                // (there is no named form of this call)
+                (Some(p), _) => solver.new_literal_for_predicate(to_predicate(earlier[p.var], &p)),
+                (None, Some(n)) => solver.new_named_literal(n),
+                (None, None) => solver.new_literal(),
             };
             (l.get_true_predicate().get_domain(), Some(l))
         }
@@ -674,7 +676,7 @@ pub fn build_with(model: &Model, options: SolverOptions, bo: BuildOpts) -> Built
     let mut lits = vec![];
     for (i, d) in model.vars.iter().enumerate() {
         let name = if bo.named { Some(format!("x{i}")) } else { None };
-        let (id, lit) = new_var(&mut solver, d, name);
+        let (id, lit) = new_var(&mut solver, d, name, &ids);
         ids.push(id);
         lits.push(lit);
     }
